@@ -14,7 +14,7 @@ ASSUMPTIONS = [
 ]
 BOUNDS = {"quick": "TOTP: every 20-octet digest (free), every time 0..2^40, offsets -1,0,1; CRA: free 32-octet digests, key lengths {16,32,57,58,64,96}, salted and unsalted; SCRAM: free 32-octet KDF/HMAC/hash outputs, every 32-octet alleged server signature, both KDFs, WELCOME with/without prior CHALLENGE; cryptosign: all 32+32 octets of challenge and channel id",
           "thorough": "same plus key lengths 1..128"}
-EXPECT_COVERS = ["totp", "totp:check", "cra:salted", "cra:plain", "scram:proof", "scram:welcome-accept", "scram:welcome-reject", "scram:no-challenge", "scram:no-signature", "cryptosign:bound", "cryptosign:unbound", "cryptosign:signed"]
+EXPECT_COVERS = ["totp", "totp:check", "cra:salted", "cra:plain", "scram:proof", "scram:welcome-accept", "scram:welcome-reject", "scram:no-challenge", "scram:no-signature", "cryptosign:bound", "cryptosign:unbound", "cryptosign:signed", "scram:twice"]
 BUDGET = {"quick": dict(wall_s=300, max_paths=20000, diff_samples=3), "thorough": dict(wall_s=1800)}
 
 B64 = b"ABCDEFGHIJKLMNOPQRSTUVWXYZabcdefghijklmnopqrstuvwxyz0123456789+/"
@@ -319,6 +319,55 @@ def scram(sx, kdf, phase):
     return [kdf]
 
 
+def scram_twice(sx, vary):
+    """one authenticator object answers a second CHALLENGE (Component reuses its authenticators for every reconnect) whose KDF parameters differ
+    from the first in one field: the second proof is derived from the second challenge's parameters, nothing of the first exchange survives"""
+    from autobahn.wamp import types
+    uf, auth = _install(sx)
+    import os
+    from symx.env import ModProxy
+    auth.os = ModProxy(os, urandom=lambda n: bytes(range(n)))
+
+    class Sess:
+        class log:
+            @staticmethod
+            def error(*a, **k):
+                pass
+            info = error
+    a = auth.AuthScram(authid="joe", password="pw")
+    nonce = a.authextra["nonce"]
+    base = {"nonce": nonce + "srv", "kdf": "argon2id-13", "salt": "c2FsdHNhbHQ=", "iterations": 4096, "memory": 512}
+    second = dict(base)
+    if vary == "memory":
+        second["memory"] = 1024
+    elif vary == "iterations":
+        second["iterations"] = 8192
+    elif vary == "salt":
+        second["salt"] = "b3RoZXJzYWx0"
+    elif vary == "nonce":
+        second["nonce"] = nonce + "other"
+    proofs = []
+    for extra in (base, second):
+        n0 = len(uf.calls)
+        try:
+            proofs.append(a.on_challenge(Sess, types.Challenge("scram", dict(extra))))
+        except Exception as e:  # noqa
+            sx.fail("on_challenge-raises-for-a-valid-CHALLENGE", info=dict(vary=vary, exc=repr(e)))
+            return ["exc"]
+        kd = [c for c in uf.calls[n0:] if c[0] == "argon2id"]
+        info = dict(vary=vary, exchange=len(proofs), kdf_calls=len(kd))
+        sx.check(len(kd) == 1, "salted-password-derived-for-this-challenge", info=info)
+        if kd:
+            args = kd[0][1]
+            sx.check(args[2] == extra["iterations"] and args[3] == extra["memory"], "KDF-run-with-this-challenges-cost-parameters", info=dict(info, got=[args[2], args[3]]))
+            ck = [c for c in uf.calls[n0:] if c[0] == "hmac-sha256" and bytes(c[1][1]) == b"Client Key"]
+            sx.check(len(ck) == 1 and ck[0][1][0] is a._salted_password, "ClientKey-from-this-exchanges-salted-password", info=info)
+        am = a._auth_message
+        sx.check(bytes(am).count(extra["nonce"].encode()) == 2 and ("i=%d" % extra["iterations"]).encode() in bytes(am), "auth-message-of-this-exchange", info=info)
+    sx.cover("scram:twice")
+    return [vary]
+
+
 def _tostr(b):
     from symx.core import mkstr
     return mkstr(list(b.items)) if hasattr(b, "items") else bytes(b).decode("ascii")
@@ -407,6 +456,8 @@ def units(tier):
         U.append(("cra/salted/%d" % kl, "cra", dict(salted=True, keylen=kl), dict(weight=2)))
     for kdf in ("pbkdf2", "argon2id-13"):
         U.append(("scram/%s" % kdf, "scram", dict(kdf=kdf, phase="full"), dict(weight=5)))
+    for vary in ("memory", "iterations", "salt", "nonce"):
+        U.append(("scram/twice/%s" % vary, "scram_twice", dict(vary=vary)))
     U.append(("scram/no-challenge", "scram", dict(kdf="pbkdf2", phase="no-challenge")))
     U.append(("scram/no-signature", "scram", dict(kdf="argon2id-13", phase="no-signature")))
     for b in (True, False):
